@@ -3,9 +3,13 @@
 package type2
 
 import (
+	"crypto/rsa"
+
 	. "github.com/cloudflare/pat-go/internal/vspec"
 	"github.com/cloudflare/pat-go/tokens"
 )
+
+var _ rsa.PublicKey
 
 var _ = tokens.SpecTokenInput
 
@@ -21,6 +25,7 @@ func specEncT2Req(keyID uint8, blinded string) string {
 //@ ensures (err == nil) == (len(data) >= 98+Nk)
 //@ ensures err == nil ==> token.TokenType == uint16(data[0])*256+uint16(data[1])
 //@ ensures err == nil ==> sameslice(token.Nonce, data[2:34]) && sameslice(token.Context, data[34:66]) && sameslice(token.KeyID, data[66:98]) && sameslice(token.Authenticator, data[98:98+Nk])
+//@ ensures err == nil ==> tokens.SpecTokenInput(token.TokenType, string(token.Nonce), string(token.Context), string(token.KeyID)) == string(data[:98])
 //@ assigns none
 //@ alloc 0
 //@ end
@@ -81,4 +86,121 @@ func lemmaT2RequestReencode(r, r2 *BasicPublicTokenRequest, b []byte) {
 func lemmaT2RejectsOtherTypes(r *BasicPublicTokenRequest, b []byte) {
 	Vassume(r != nil && len(b) >= 2 && (b[0] != 0 || b[1] != 2))
 	Vassert(!r.Unmarshal(b))
+}
+
+// ---------------------------------------------------------------------------
+// Issuer and client of the publicly verifiable token type 0x0002 (blind RSA, 2048 bit).
+
+//@ func (i *BasicPublicIssuer) TokenKey() (pk *rsa.PublicKey)
+//@ props C01 C17 C18
+//@ requires i.tokenKey != nil
+//@ ensures pk == RSAPub(i.tokenKey)
+//@ assigns none
+//@ pure
+//@ end
+
+//@ func (i BasicPublicIssuer) Evaluate(req *BasicPublicTokenRequest) (resp []byte, err error)
+//@ props C01 C03 C05 C16 C17
+//@ requires req != nil && i.tokenKey != nil
+//@ let pk = RSAPub(i.tokenKey)
+//@ ensures err == nil ==> len(req.BlindedReq) == RSAModLen(pk) && string(resp) == BRSASign(i.tokenKey, string(req.BlindedReq)) && fresh(resp)
+//@ ensures len(req.BlindedReq) == RSAModLen(pk) && BRSAInRange(i.tokenKey, string(req.BlindedReq)) && !EntropyFailed() ==> err == nil
+//@ ensures err != nil ==> resp == nil
+//@ assigns none
+//@ end
+
+//@ spec
+func specStateOK(s BasicPublicTokenRequestState) bool {
+	return s.verificationKey != nil && s.request != nil && VStKey(s.verifier) == s.verificationKey &&
+		VStMsg(s.verifier) == string(s.tokenInput) && len(s.tokenInput) == 98 && BlindOK(s.verificationKey, VStR(s.verifier))
+}
+
+//@ func (c BasicPublicClient) CreateTokenRequest(challenge []byte, nonce []byte, tokenKeyID []byte, tokenKey *rsa.PublicKey) (s BasicPublicTokenRequestState, err error)
+//@ props C01 C03 C16 C18
+//@ requires len(tokenKeyID) >= 1 && tokenKey != nil
+//@ let input = tokens.SpecTokenInput(BasicPublicTokenType, string(nonce), SHA256(string(challenge)), string(tokenKeyID))
+//@ ensures err == nil ==> string(s.tokenInput) == input && fresh(s.tokenInput) && s.request != nil && fresh(s.request) && s.verificationKey == tokenKey
+//@ ensures err == nil ==> s.request.TokenKeyID == tokenKeyID[len(tokenKeyID)-1] && s.request.raw == nil && fresh(s.request.BlindedReq)
+//@ ensures err == nil ==> string(s.request.BlindedReq) == BRSABlinded(tokenKey, input, VStR(s.verifier), VStSalt(s.verifier))
+//@ ensures err == nil && len(nonce) == 32 && len(tokenKeyID) == 32 ==> specStateOK(s)
+//@ ensures !EntropyFailed() && !BRSAEncodeFails(tokenKey, input) ==> err == nil
+//@ assigns none
+//@ end
+
+//@ func (c BasicPublicClient) CreateTokenRequestWithBlind(challenge []byte, nonce []byte, tokenKeyID []byte, tokenKey *rsa.PublicKey, blind []byte, salt []byte) (s BasicPublicTokenRequestState, err error)
+//@ props C01 C03 C11 C16 C18
+//@ requires len(tokenKeyID) >= 1 && tokenKey != nil
+//@ let input = tokens.SpecTokenInput(BasicPublicTokenType, string(nonce), SHA256(string(challenge)), string(tokenKeyID))
+//@ ensures err == nil ==> string(s.tokenInput) == input && fresh(s.tokenInput) && s.request != nil && fresh(s.request) && s.verificationKey == tokenKey
+//@ ensures err == nil ==> s.request.TokenKeyID == tokenKeyID[len(tokenKeyID)-1] && s.request.raw == nil && fresh(s.request.BlindedReq)
+//@ ensures err == nil ==> string(s.request.BlindedReq) == BRSABlinded(tokenKey, input, string(blind), string(salt)) && VStR(s.verifier) == string(blind) && VStSalt(s.verifier) == string(salt)
+//@ ensures err == nil && len(nonce) == 32 && len(tokenKeyID) == 32 ==> specStateOK(s)
+//@ ensures BlindOK(tokenKey, string(blind)) && !BRSAEncodeFails(tokenKey, input) ==> err == nil
+//@ assigns none
+//@ end
+
+// A finalization succeeds only if the unblinded signature verifies (RSASSA-PSS, SHA-384) under the
+// pinned key over this request's token input; the token carries that input and the signature.
+//
+//@ func (s BasicPublicTokenRequestState) FinalizeToken(blindSignature []byte) (token tokens.Token, err error)
+//@ props C01 C02 C03 C11 C16
+//@ requires specStateOK(s)
+//@ let in = string(s.tokenInput)
+//@ let sig = BRSAFinal(s.verificationKey, VStR(s.verifier), string(blindSignature))
+//@ ensures[C01 C02 C11] err == nil ==> len(blindSignature) == RSAModLen(s.verificationKey) && PSSVerify(s.verificationKey, SHA384(in), sig)
+//@ ensures[C01 C02 C11] err == nil ==> tokens.SpecTokenInput(token.TokenType, string(token.Nonce), string(token.Context), string(token.KeyID)) == in
+//@ ensures[C01 C02 C11] err == nil ==> string(token.Authenticator) == sig && len(token.Authenticator) == Nk
+//@ ensures[C01 C02 C11] len(blindSignature) == RSAModLen(s.verificationKey) && RSAModLen(s.verificationKey) == Nk && PSSVerify(s.verificationKey, SHA384(in), sig) ==> err == nil
+//@ assigns spare(s.tokenInput)
+//@ end
+
+// C01 (type 0x0002): honest issuance over the wire, for every 2048-bit key.
+//
+//@ lemma props C01
+func lemmaHonestType2(key *rsa.PrivateKey, challenge, nonce, keyID []byte, dst *BasicPublicTokenRequest) {
+	Vassume(key != nil && RSAModLen(RSAPub(key)) == Nk && len(nonce) == 32 && len(keyID) == 32 && dst != nil)
+	issuer := NewBasicPublicIssuer(key)
+	client := BasicPublicClient{}
+	pk := issuer.TokenKey()
+	input := tokens.SpecTokenInput(BasicPublicTokenType, string(nonce), SHA256(string(challenge)), string(keyID))
+	Vassume(!EntropyFailed() && !BRSAEncodeFails(pk, input))
+	state, err := client.CreateTokenRequest(challenge, nonce, keyID, pk)
+	Vassert(err == nil)
+	enc := state.Request().Marshal()
+	ok := dst.Unmarshal(enc)
+	Vassert(ok)
+	Vassert(string(dst.BlindedReq) == string(state.request.BlindedReq))
+	resp, err2 := issuer.Evaluate(dst)
+	Vassert(err2 == nil)
+	Vassert(BRSAFinal(pk, VStR(state.verifier), string(resp)) == PSSSign(key, input, VStSalt(state.verifier))) // proof step: the blind cancels
+	token, err3 := state.FinalizeToken(resp)
+	Vassert(err3 == nil)
+	Vassert(PSSVerify(pk, SHA384(input), string(token.Authenticator)) && len(token.Authenticator) == Nk)
+	Vassert(string(token.Marshal()) == U16(BasicPublicTokenType)+string(nonce)+SHA256(string(challenge))+string(keyID)+string(token.Authenticator))
+}
+
+// C11 (type 0x0002): with caller-supplied blind and salt the token does not depend on the blind.
+//
+//@ lemma props C11
+func lemmaTokenIgnoresBlindType2(key *rsa.PrivateKey, challenge, nonce, keyID, blind1, blind2, salt []byte) {
+	Vassume(key != nil && RSAModLen(RSAPub(key)) == Nk && len(nonce) == 32 && len(keyID) == 32)
+	issuer := NewBasicPublicIssuer(key)
+	client := BasicPublicClient{}
+	pk := issuer.TokenKey()
+	input := tokens.SpecTokenInput(BasicPublicTokenType, string(nonce), SHA256(string(challenge)), string(keyID))
+	s1, e1 := client.CreateTokenRequestWithBlind(challenge, nonce, keyID, pk, blind1, salt)
+	s2, e2 := client.CreateTokenRequestWithBlind(challenge, nonce, keyID, pk, blind2, salt)
+	Vassume(e1 == nil && e2 == nil)
+	r1, e3 := issuer.Evaluate(s1.Request())
+	r2, e4 := issuer.Evaluate(s2.Request())
+	Vassume(e3 == nil && e4 == nil)
+	t1, e5 := s1.FinalizeToken(r1)
+	Vassume(e5 == nil)
+	Vassert(string(t1.Authenticator) == PSSSign(key, input, string(salt))) // proof step: the blind cancels
+	m1 := string(t1.Marshal())
+	t2, e6 := s2.FinalizeToken(r2)
+	Vassume(e6 == nil)
+	Vassert(string(t2.Authenticator) == PSSSign(key, input, string(salt)))
+	m2 := string(t2.Marshal())
+	Vassert(m1 == m2)
 }
